@@ -242,6 +242,33 @@ func (c *Ctx) RuleDateFieldStores(pkg *ssa.Package) {
 						c.add("violated", "C11.range", fn, st.Pos(), fmt.Sprintf("%s := %s − 1 stored without any range or calendar-validity guard: a non-existent date can be minted", fname, src))
 					}
 				default:
+					// a constructor helper storing its own parameter (minus one): every call inside the module must pass a
+					// component of time.Time.Date()
+					if pi, ok := paramBehind(fn, st.Val); ok {
+						sites, all := 0, true
+						for caller := range c.AllRepoFuncs() {
+							for _, cb := range caller.Blocks {
+								for _, cin := range cb.Instrs {
+									call, isCall := cin.(*ssa.Call)
+									if !isCall {
+										continue
+									}
+									if callee := c.StaticCallee(&call.Call); callee == nil || origin(callee) != origin(fn) || pi >= len(call.Call.Args) {
+										continue
+									}
+									sites++
+									if k, _ := classifyStored(call.Call.Args[pi]); k != "time" {
+										all = false
+									}
+								}
+							}
+						}
+						exported := fn.Object() != nil && fn.Object().Exported()
+						if sites > 0 && all && !exported {
+							c.add("discharged", "C11.range", fn, st.Pos(), fmt.Sprintf("%s := parameter − 1 of an unexported constructor; all %d call site(s) pass a component of time.Time.Date()", fname, sites))
+							continue
+						}
+					}
 					c.add("undecided", "C11.range", fn, st.Pos(), "unclassified value stored into "+fname)
 				}
 			}
@@ -664,4 +691,32 @@ func (c *Ctx) dateValueOrigin(v ssa.Value, depth int) string {
 		return "a field/copy of an existing Date"
 	}
 	return ""
+}
+
+// paramBehind: v is a parameter of fn behind conversions and ± constant; returns its index.
+func paramBehind(fn *ssa.Function, v ssa.Value) (int, bool) {
+	for i := 0; i < 8; i++ {
+		switch x := v.(type) {
+		case *ssa.Convert:
+			v = x.X
+		case *ssa.ChangeType:
+			v = x.X
+		case *ssa.BinOp:
+			if _, isK := x.Y.(*ssa.Const); isK && (x.Op == token.SUB || x.Op == token.ADD) {
+				v = x.X
+			} else {
+				return 0, false
+			}
+		case *ssa.Parameter:
+			for pi, p := range fn.Params {
+				if p == x {
+					return pi, true
+				}
+			}
+			return 0, false
+		default:
+			return 0, false
+		}
+	}
+	return 0, false
 }
